@@ -1922,6 +1922,16 @@ namespace awkward {
      return shallow_copy();
     }
 
+    if (offsets_.getitem_at_nowrap(0) != 0) {
+      // positions are counted from the starts of the lists, which have to
+      // refer to the same origin as the (trimmed) content: start at zero,
+      // as in reduce_next
+      ContentPtr next = toListOffsetArray64(true);
+      return next.get()->argsort_next(
+          negaxis, starts, shifts, parents, outlength, ascending, stable
+      );
+    }
+
     std::pair<bool, int64_t> branchdepth = branch_depth();
 
     if (parameter_equals("__array__", "\"string\"")  ||
